@@ -120,7 +120,10 @@ def as_kind(rng, x, kinds):
     k = rng.choice(kinds)
     if k == 'pyint' and float(x).is_integer() and abs(x) < 2 ** 53:
         return int(x), k
-    if k == 'pyfloat' or k == 'pyint':
+    if k in ('npint', 'arrint0', 'npint32') and float(x).is_integer() and abs(x) < 2 ** 31:
+        # integer-typed NumPy operands: the same number, another dtype
+        return {'npint': np.int64(int(x)), 'arrint0': np.array(int(x)), 'npint32': np.int32(int(x))}[k], k
+    if k in ('pyfloat', 'pyint', 'npint', 'arrint0', 'npint32'):
         return float(x), 'pyfloat'
     if k == 'npfloat':
         return np.float64(x), k
@@ -180,7 +183,7 @@ def run(ctx):
                 ctx.fail('imaginary_flag', inp, impl=bool(r.imaginary), model=want_imag)
 
     NC = 500 if ctx.tier == 'quick' else 12000
-    num_kinds = ['pyint', 'pyfloat', 'npfloat', 'arr0', 'quantity']
+    num_kinds = ['pyint', 'pyfloat', 'npfloat', 'arr0', 'quantity', 'npint', 'arrint0', 'npint32']
     for c in range(NC):
       try:
         op = rng.choice(['construct1', 'construct2', 'add', 'add', 'sub', 'sub', 'neg', 'abs', 'mul', 'mul', 'div', 'div', 'pos',
@@ -273,7 +276,8 @@ def run(ctx):
             ea = exact(a)[0]
             # factor such that the product stays within 2^52
             room = Fr(2 ** 52) / max(abs(ea), Fr(1))
-            f = rng.choice([2.0, 3.0, 0.5, -1.0, 1 / 3, 1e-3, 7.25, rng.uniform(-10, 10), rng.uniform(-1e5, 1e5), 10.0, 1e6, 0.1])
+            f = rng.choice([2.0, 3.0, 0.5, -1.0, 1 / 3, 1e-3, 7.25, rng.uniform(-10, 10), rng.uniform(-1e5, 1e5), 10.0, 1e6, 0.1,
+                            12345.0, -7777.0, 99991.0, float(rng.randint(-10 ** 6, 10 ** 6))])
             if not imag and rng.random() < 0.35:
                 # a result within an ulp of a half-integer (where a fraction can be left just outside [-1/2, 1/2]): the operand is a
                 # half-integer times / over the factor, up to two ulps off - half of these around -1/2 itself, one ulp further out
@@ -291,12 +295,21 @@ def run(ctx):
                 ea = exact(a)[0]
                 room = Fr(2 ** 52) / max(abs(ea), Fr(1))
                 ctx.count('near_half_integer_result')
+            int_mode = False
+            if not imag and op == 'mul' and rng.random() < 0.25:
+                # an integer-typed factor large enough that frac * k alone loses bits (every integer kind must go through the exact product)
+                a = Phase(float(rng.randint(-10 ** 6, 10 ** 6)), rand_frac(rng))
+                ea = exact(a)[0]
+                room = Fr(2 ** 52) / max(abs(ea), Fr(1))
+                f = float(rng.choice([12345, -7777, 99991, rng.randint(2, 10 ** 5), -rng.randint(2, 10 ** 5)]))
+                int_mode = True
+                ctx.count('integer_typed_factor')
             if op == 'mul' and abs(Fr(f)) > room:
                 f = float(room) * rng.uniform(0.1, 0.9)
             if op == 'div':
                 if f == 0 or abs(Fr(1) / Fr(f)) > room:
                     f = rng.choice([2.0, 3.0, 7.0, 1e3, 1 / 3]) if room > 8 else 2.0
-            fk, kind = as_kind(rng, f, num_kinds)
+            fk, kind = as_kind(rng, f, ['pyint', 'npint', 'arrint0', 'npint32'] if int_mode else num_kinds)
             order = rng.choice(['phase_first', 'number_first']) if op == 'mul' else 'phase_first'
             inp = dict(op=op, a=repr(a), f=float(f), kind=kind, order=order, imag=imag)
             ctx.seen(inp); ctx.count('kind:' + kind)
